@@ -400,6 +400,26 @@ def c11_specs():
                                                "init": init, "any": bool(any_), "nolist": any_ == "nolist", "child": child}
 
 
+C11_PRIORS = ("noinit", "badattr", "badattr_rev", "group_exc")
+
+
+def c11_history_specs():
+    """The same connect() call AFTER something that must not matter: an earlier call of the same world that was (correctly)
+    refused - for missing initial data on the pair (p, i), for an unknown attribute, for an unknown attribute in the opposite
+    direction - or a group block that was left by an exception before the two simulators were started."""
+    gp = [[], [1], [3]]
+    for prior in C11_PRIORS:
+        for sg in gp:
+            for dg in gp:
+                for sk in SK:
+                    for dk in DK:
+                        for shift in (0, 1):
+                            for weak in (False, True):
+                                for init in (False, True):
+                                    yield {"sg": sg, "dg": dg, "pairs": [{"sk": sk, "dk": dk}], "shift": shift, "weak": weak, "init": init,
+                                           "any": False, "nolist": False, "child": "", "prior": prior}
+
+
 def _obs(ctx, requests=False):
     """Per-simulator observation sequences: (time, inputs) of every step; with requests=True also the
     attribute lists of every get_data request (a request for data is data-flow, too)."""
@@ -426,6 +446,9 @@ def _c11_row(spec):
         meta["models"]["M"]["any_inputs"] = True
         scn["sims"][1]["meta"] = meta
     res = {}
+    prior = spec.get("prior", "")
+    if prior == "group_exc":
+        scn["abandoned_group"] = True
 
     child = spec.get("child", "")
     if child == "src":
@@ -452,6 +475,20 @@ def _c11_row(spec):
             kw["weak"] = True
         if spec["init"]:
             kw["initial_data"] = {sa: "init." + sa for sa, _ in pairs}
+        if prior in ("noinit", "badattr", "badattr_rev") and res.get("with_prior", True):
+            # an earlier call of the same world that is refused (and whose ScenarioError the script catches)
+            try:
+                if prior == "noinit":
+                    w.connect(src, dst, (SK["pers"], DK["nontrig"]), time_shifted=True)
+                elif prior == "badattr":
+                    w.connect(src, dst, (SK["none"], DK["trig"]))
+                else:
+                    w.connect(dst, src, (SK["none"], DK["none"]))
+                res["prior_out"] = "accepted"
+            except ScenarioError:
+                res["prior_out"] = "ScenarioError"
+            except BaseException as e:  # noqa: BLE001
+                res["prior_out"] = f"{type(e).__name__}"
         try:
             w.connect(src, dst, *pairs, **kw)
             res["out"], res["named"] = "ok", []
@@ -477,6 +514,14 @@ def _c11_row(spec):
             same = same and a2.outcome["r"] == b.outcome["r"] and _obs(a2, True) == _obs(b, True)
     row = dict(spec)
     row.update({"out": res.get("out", "other"), "named": res.get("named", []), "sameobs": same, "msg": res.get("msg", "")})
+    if prior:
+        # the same call without that history: same verdict of connect(), same run (outcome, inputs of every step, requests)
+        res0 = {"with_prior": False}
+        scn0 = {k: v for k, v in scn.items() if k != "abandoned_group"}
+        b0 = drive.execute(scn0, beh(), behave.FifoPolicy(), hooks=lambda ctx: attempt(ctx, res=res0))
+        row["prior_out"] = res.get("prior_out", "ScenarioError" if prior == "group_exc" else "none")
+        row["priorsame"] = (res.get("out"), res.get("named")) == (res0.get("out"), res0.get("named")) and a.outcome["r"] == b0.outcome["r"] \
+            and _obs(a, True) == _obs(b0, True)
     return row
 
 
@@ -511,7 +556,7 @@ def _parallel_rows(fn, specs, chunk=200):
 
 def c11(tier, seed):
     t0 = time.time()
-    specs = list(c11_specs())
+    specs = list(c11_specs()) + list(c11_history_specs())
     rows = _parallel_rows(_c11_rows, specs)
     viol, st, secs = _judge_rows("ConnectRules", "R11", rows)
     findings = [checklib.Finding("C11", clause, case={"id": [clause, n], "kind": "c11", "row": rows[n]}, detail=json.dumps(rows[n]), extra={"row": rows[n]})
@@ -524,7 +569,9 @@ def c11(tier, seed):
         "evaluations": len(rows), "distinct_nontrivial": len(rows),
         "rule": "cross product of 6x6 placements of source/destination in the group tree (root, [1], [1,2], [3], [1,4], [3,5]: same group, parent/child, "
                 "siblings, cousins) x 9 single attribute pairs (persistent/event/not-an-output x trigger/non-trigger/not-an-input) + 5 multi-pair calls x "
-                "time_shifted in {False, True, 2} x weak x initial data x any_inputs (off / on / on for a hybrid model without trigger lists) x (source / destination entity a child of a non-public second model); each row is one real World.connect() call; rejected calls are followed by "
+                "time_shifted in {False, True, 2} x weak x initial data x any_inputs (off / on / on for a hybrid model without trigger lists) x (source / destination entity a child of a non-public second model); "
+                "plus history rows: 3x3 placements x 9 pairs x shift x weak x initial data, each AFTER an earlier refused call of the same world (missing initial data on the same "
+                "pair, unknown attribute, unknown attribute in the opposite direction) or after a group block left by an exception - verdict and run must equal those without the history; each row is one real World.connect() call; rejected calls are followed by "
                 "a run whose per-simulator (time, inputs) sequences are compared with the scenario in which only the accepted pairs of the call are connected",
         "exhaustive": True,
         "outcomes": dict(collections.Counter(r["out"] for r in rows)),
@@ -805,21 +852,35 @@ class _RecWorld:
 ATTR_FORMS = [("a", ("b", "c")), (), ("a",), (("x", "y"),)]
 
 
-def _bulk_run(ns, nd, evenly, maxc, rnd, as_float=False, attrs=ATTR_FORMS[0]):
+def _bulk_run(ns, nd, evenly, maxc, rnd, as_float=False, attrs=ATTR_FORMS[0], shape="lists"):
+    """shape: how the two entity sets are handed over - "lists" (two lists), "same" (ONE list object as source and
+    destination set: entities of one kind connected among themselves; needs ns == nd), "dst_tuple" / "dst_gen" / "dst_keys"
+    (the destination set as another iterable; the sources stay a list because evenly=True slices them)."""
     from mosaik import util
 
     w = _RecWorld()
     src = [f"s{i + 1}" for i in range(ns)]
     dst = [f"d{i + 1}" for i in range(nd)]
+    if shape == "same":
+        assert ns == nd
+        dst_arg = src
+    elif shape == "dst_tuple":
+        dst_arg = tuple(dst)
+    elif shape == "dst_gen":
+        dst_arg = (d for d in dst)
+    elif shape == "dst_keys":
+        dst_arg = dict.fromkeys(dst).keys()
+    else:
+        dst_arg = list(dst)
     saved = util.random
     util.random = rnd
-    row = {"ns": ns, "nd": nd, "evenly": evenly, "maxc": maxc}
+    row = {"ns": ns, "nd": nd, "evenly": evenly, "maxc": maxc, "shape": shape}
     try:
         kw = {"evenly": evenly}
         if maxc:
             # a finite limit may be given as a float (2.0, 4/2, the result of a ceil) - the default itself is the float inf
             kw["max_connects"] = float(maxc) if as_float else maxc
-        ret = util.connect_randomly(w, src, list(dst), *attrs, **kw)
+        ret = util.connect_randomly(w, src, dst_arg, *attrs, **kw)
         row.update({"ok": True, "ret": sorted(int(d[1:]) for d in ret)})
     except BaseException as e:  # noqa: BLE001
         row.update({"ok": False, "ret": [], "exc": f"{type(e).__name__}: {e}"[:100]})
@@ -838,17 +899,18 @@ def c18_exhaustive(max_ns, max_nd):
             for evenly, maxc, as_float in [(True, 0, False), (False, 0, False), (False, 1, False), (False, 2, False), (False, 3, False), (False, 2, True)]:
                 if not evenly and maxc and ns > nd * maxc:
                     continue
-                stack = [[]]
-                while stack:
-                    script = stack.pop()
-                    rnd = _ScriptedRandom(script)
-                    row = _bulk_run(ns, nd, evenly, maxc, rnd, as_float)
-                    row["script"] = script
-                    rows.append(row)
-                    # expand the first decision beyond the script
-                    for pos in range(len(script), len(rnd.options)):
-                        for alt in range(1, rnd.options[pos]):
-                            stack.append(script + [0] * (pos - len(script)) + [alt])
+                for shape in ["lists"] + (["same"] if ns == nd else []) + (["dst_tuple", "dst_gen"] if ns <= 2 else []):
+                    stack = [[]]
+                    while stack:
+                        script = stack.pop()
+                        rnd = _ScriptedRandom(script)
+                        row = _bulk_run(ns, nd, evenly, maxc, rnd, as_float, shape=shape)
+                        row["script"] = script
+                        rows.append(row)
+                        # expand the first decision beyond the script
+                        for pos in range(len(script), len(rnd.options)):
+                            for alt in range(1, rnd.options[pos]):
+                                stack.append(script + [0] * (pos - len(script)) + [alt])
     return rows
 
 
@@ -867,9 +929,12 @@ def c18(tier, seed):
         ns = rng.randint(0, nd * maxc if maxc else 100)
         if maxc and rng.random() < 0.3:
             ns = nd * maxc  # exactly filled (D5)
+        shape = rng.choice(["lists", "lists", "dst_tuple", "dst_gen", "dst_keys", "same"])
+        if shape == "same":
+            ns = nd  # one list object as source and destination set
         r = pyrandom.Random(rng.random())
         # (any attribute form, including NO attributes at all - World.connect(src, dest) is a supported call)
-        rows.append(_bulk_run(ns, nd, evenly, maxc, r, as_float=bool(maxc) and rng.random() < 0.3, attrs=rng.choice(ATTR_FORMS)))
+        rows.append(_bulk_run(ns, nd, evenly, maxc, r, as_float=bool(maxc) and rng.random() < 0.3, attrs=rng.choice(ATTR_FORMS), shape=shape))
     # connect_many_to_one
     from mosaik import util
 
@@ -979,7 +1044,7 @@ def _c15_inproc(ver, explicit, kind, hastype, fail=None):
     stubs.CONFIG["meta"] = _c15_meta(ver, hastype)
     stubs.CONFIG["fail"] = fail
     del stubs.LOG[:]
-    cfg = {"python": "harness.stubs:" + ("V3SigDefault" if kind == "inproc_v3" else "OldSig")}
+    cfg = {"python": "harness.stubs:" + {"inproc_v3": "V3SigDefault", "inproc_v3_kwonly": "V3SigKwOnly", "inproc_v3_kwargs": "V3SigKwargs"}.get(kind, "OldSig")}
     exp = _c15_explicit(ver, explicit)
     if exp:
         cfg["api_version"] = exp
@@ -1058,7 +1123,7 @@ def c15_rows():
     ref_fail = {exc: _c15_inproc("3.0", "absent", "inproc_v3", True, fail=[2, exc]) for exc in C15_FAILS if exc != "none"}
     for ver in C15_VERSIONS:
         for explicit in ("absent", "equal", "different"):
-            for kind in ("remote", "inproc_v3", "inproc_old"):
+            for kind in ("remote", "inproc_v3", "inproc_v3_kwonly", "inproc_v3_kwargs", "inproc_old"):
                 for hastype, fail in [(True, "none"), (False, "none"), ("event-based", "none"), ("hybrid", "none")] + ([(True, e) for e in C15_FAILS if e != "none"] if kind != "remote" and explicit == "absent" else []):
                     if fail != "none":
                         # the simulator's own step raises at its second call: the adapter must not turn that into further requests
@@ -1111,7 +1176,7 @@ def c15(tier, seed):
         "samples": [rows[3], next(r for r in rows if r["out"] == "ok" and r["vs"] == "2.1" and r["kind"] == "remote")],
         "evaluations": len(rows), "distinct_nontrivial": len(rows),
         "rule": f"api_version in {C15_VERSIONS} x explicit api_version (absent / equal / different) x (remote stub behind the shipped RemoteProxy over fake streams, "
-                "in-process stub with v3 signatures, in-process stub with old signatures) x meta without type / with type time-based, event-based, hybrid x (in-process) three extra-method calls x the stub's second step raising ValueError / RuntimeError / KeyError; each row = world.start + create + run(until=3) "
+                "in-process stub with v3 signatures in three legal shapes (time_resolution positional-or-keyword / keyword-only without **kwargs / only **kwargs), in-process stub with old signatures) x meta without type / with type time-based, event-based, hybrid x (in-process) three extra-method calls x the stub's second step raising ValueError / RuntimeError / KeyError; each row = world.start + create + run(until=3) "
                 "with the exact requests the stub received; compared with the run of a 3.0 stub",
         "exhaustive": True,
         "outcomes": dict(collections.Counter((r["kind"], r["out"]) .__str__() for r in rows)),
